@@ -389,6 +389,15 @@ impl Directive {
             Directive::Define => {
                 if let DirectiveOps::OpList(values) = &opts {
                     if let Some(Operand::E(Expr::Ident(name))) = values.first() {
+                        // the #define would take the place of the symbol wherever the name is used
+                        let symbol = name.to_lowercase();
+                        if context.common_context.get_equ(&symbol).is_some()
+                            || context.common_context.get_set(&symbol).is_some()
+                            || context.common_context.get_def(&symbol).is_some()
+                            || context.common_context.get_label(&symbol).is_some()
+                        {
+                            bail!("Identifier {} is used twice, {}", name, point);
+                        }
                         context
                             .common_context
                             .set_define(name.clone(), Expr::Const(0));
